@@ -50,6 +50,8 @@ Definition listing_is (g : grid) (c : cap) (p : list N) (s : N * N) (ks : list (
   end.
 Definition obs_is (g : grid) (rq : request) (w : N) (codes : list N) (same : bool) (names : list N) : bool :=
   let '(c, s, n) := observe g rq w in existsb (N.eqb c) codes && Bool.eqb s same && same_names n names.
+Definition obs_is_abstract (g : grid) (rq : request) (w : N) (codes : list N) (names : list N) : bool :=
+  let '(c, s, n) := observe g rq w in existsb (N.eqb c) codes && same_names n names.
 Definition obs_refused (g : grid) (rq : request) (codes : list N) : bool :=
   let '(c, s, n) := observe g rq 0 in existsb (N.eqb c) codes && s.
 """
@@ -678,6 +680,21 @@ def do_request(run, scn, si, addr, op, presented, expect_writeable, tgt_desc):
     run.covered.add(op["key"])
     ctx.case((op["key"], addr.kind, tgt_desc, expect_writeable) if reached else None,
              kind=("rw:" if expect_writeable else "ro:") + meth + " " + (op["key"][0][:4]) + " t=" + t)
+    maintenance = not op["modifying"]
+    if maintenance and not expect_writeable and new_in_old:
+        # check&repair / deep-check&repair of an IMMUTABLE object needs no write authority (the verify cap suffices):
+        # shares it adds under the storage index of an immutable object are not the property's business
+        imm_si = {o.key[1] for o in scn.objs.values() if o.key[0] == "si" and o.kind in ("dir", "file") and not o.mutable}
+        import base64 as _b64
+        def _si_hex(rel):
+            name = os.path.basename(os.path.dirname(rel))
+            try:
+                return _b64.b32decode(name.upper() + "=" * (-len(name) % 8)).hex()
+            except Exception:
+                return None
+        legit = [k for k in new_in_old if _si_hex(k[1]) in imm_si]
+        ctx.count("shares-added-by-repair-of-immutable-object-through-read-cap", len(legit))
+        new_in_old = [k for k in new_in_old if k not in legit]
     touched = bool(changed or new_in_old)
     if not expect_writeable:
         # ---- the property, evaluated directly
@@ -715,9 +732,16 @@ def do_request(run, scn, si, addr, op, presented, expect_writeable, tgt_desc):
     old_names = None
     scn.snapshot()
     names = sorted(scn.nid(n) for n in watch.kids) if watch is not None else []
-    run.terms.append("obs_is %s %s %s %s %s %s" % (gname, rq_term, T.N(watch.id if watch is not None else 0),
-                                                   T.lst([T.N(c) for c in model_codes(resp)]), T.boolean(not touched),
-                                                   T.lst([T.N(n) for n in names])))
+    if op["modifying"]:
+        run.terms.append("obs_is %s %s %s %s %s %s" % (gname, rq_term, T.N(watch.id if watch is not None else 0),
+                                                       T.lst([T.N(c) for c in model_codes(resp)]), T.boolean(not touched),
+                                                       T.lst([T.N(n) for n in names])))
+    else:
+        if touched:
+            ctx.count("share-files-changed-by-maintenance-operation-through-write-cap")
+        run.terms.append("obs_is_abstract %s %s %s %s %s" % (gname, rq_term, T.N(watch.id if watch is not None else 0),
+                                                             T.lst([T.N(c) for c in model_codes(resp)]),
+                                                             T.lst([T.N(n) for n in names])))
     case["names_after"] = sorted(watch.kids) if watch is not None else []
     run.info.append(("request-verdict-vs-model", case))
     return touched
@@ -899,7 +923,8 @@ def replay(ctx, rec):
     case = rec.get("case") or {}
     si = case.get("scenario", 0)
     r = Run(ctx)
-    scenario(r, si)
+    with quiet_twisted():
+        scenario(r, si)
     bad = ctx.coq_check(IMPORTS, r.terms, preamble=r.preamble(), tag="c41replay")
     for ix in bad:
         corr, c = r.info[ix]
@@ -912,7 +937,38 @@ def replay(ctx, rec):
             "first": ({k: same[0].get(k) for k in ("what", "case", "expected", "observed")} if same else None)}
 
 
+class quiet_twisted(object):
+    """twisted.python.log's DefaultObserver prints every logged failure to stderr until logging is started;
+    the renderers log a traceback for each 500 they answer.  The grid's own observer keeps collecting them."""
+
+    def __enter__(self):
+        from twisted.python import log
+        self.obs = log.defaultObserver
+        if self.obs is not None:
+            try:
+                self.obs.stop()
+            except Exception:
+                self.obs = None
+            log.defaultObserver = None
+        return self
+
+    def __exit__(self, *a):
+        from twisted.python import log
+        if self.obs is not None:
+            try:
+                self.obs.start()
+                log.defaultObserver = self.obs
+            except Exception:
+                pass
+        return False
+
+
 def run(ctx):
+    with quiet_twisted():
+        _run(ctx)
+
+
+def _run(ctx):
     ctx.correspondence("dispatch-table-vs-driver-cases")
     ctx.correspondence("request-verdict-vs-model")
     ctx.correspondence("listing-vs-model")
